@@ -275,6 +275,10 @@ impl FieldSpec {
 
 #[derive(Clone, Debug, PartialEq, Eq, Hash)]
 pub struct StructSpec {
+    /// how attribute arguments are written: 0 = one `#[deserr(..)]` in canonical order, 1 = one
+    /// attribute in reverse order, 2 = one attribute per argument, 3 = reverse order, one per
+    /// argument (same meaning; the parser must not care)
+    pub style: u8,
     pub rename_all: Option<RenameAll>,
     pub deny: Deny,
     pub validate: bool,
@@ -285,7 +289,7 @@ pub struct StructSpec {
 
 impl StructSpec {
     pub fn plain(fields: Vec<FieldSpec>) -> Self {
-        StructSpec { rename_all: None, deny: Deny::No, validate: false, concrete: false, fields }
+        StructSpec { style: 0, rename_all: None, deny: Deny::No, validate: false, concrete: false, fields }
     }
 }
 
@@ -300,6 +304,8 @@ pub struct VariantSpec {
 
 #[derive(Clone, Debug, PartialEq, Eq, Hash)]
 pub struct EnumSpec {
+    /// see `StructSpec::style`
+    pub style: u8,
     /// `None` = unit-only enum read from a string
     pub tag: Option<String>,
     pub rename_all: Option<RenameAll>,
